@@ -201,6 +201,36 @@ def run(rep, facts, tier):
                 okm = term_has(v, lambda x: x[0] == 'call' and x[1].endswith('::next')) and has_call(base, '::get_mut') and has_field(base, 'instance_map')
     rep.check(okm, 'R08.5', 'mark_instances_viewed/writes-marker', 'instance_map[inst].last_generation_accessed := recorded generation',
               'mark_instances_viewed does not store the recorded generation into the instance\'s last_generation_accessed', mv.where())
+    # ... and only forward (raised F26): the store lies behind `recorded.total() > last_generation_accessed.total()` (or the value stored is a max of the two)
+    Pm = Pos(mv)
+    em = list(switch_edges(mv, fx, ogm))
+
+    def _fwd(cond, lab):
+        if cond[0] != 'bin' and cond[0] != 'call':
+            return False
+        op = cond[1] if cond[0] == 'bin' else cond[1].rsplit('::', 1)[-1].capitalize()
+        a, b_ = (cond[2], cond[3]) if cond[0] == 'bin' else (cond[2][0], cond[2][1])
+        new_a = term_has(a, lambda x: x[0] == 'call' and x[1].endswith('::next')) and not term_has(a, lambda x: x[0] == 'field' and x[1] == 'last_generation_accessed')
+        old_a = term_has(a, lambda x: x[0] == 'field' and x[1] == 'last_generation_accessed')
+        new_b = term_has(b_, lambda x: x[0] == 'call' and x[1].endswith('::next')) and not term_has(b_, lambda x: x[0] == 'field' and x[1] == 'last_generation_accessed')
+        old_b = term_has(b_, lambda x: x[0] == 'field' and x[1] == 'last_generation_accessed')
+        if new_a and old_b:
+            return (op in ('Gt', 'Ge') and lab is True) or (op in ('Le', 'Lt') and lab is False)
+        if old_a and new_b:
+            return (op in ('Lt', 'Le') and lab is True) or (op in ('Ge', 'Gt') and lab is False)
+        return False
+    fwd = [(s_, t_) for s_, t_, cond, lab in em if isinstance(lab, bool) and _fwd(cond, lab)]
+    okf = False
+    for bb, si, st in mv.statements():
+        if st['s'] == 'assign':
+            pr = st['lhs'].get('p') or []
+            if pr and isinstance(pr[-1], dict) and pr[-1].get('n') == 'last_generation_accessed':
+                v = ogm._rvalue(st['rv'], bb, si, 0)
+                okf = (bool(fwd) and Pm.every_path_passes(None, (bb, si), via_edges=fwd, from_entry=True)) or \
+                    term_has(v, lambda x: x[0] == 'call' and x[1].rsplit('::', 1)[-1] == 'max' and term_has(x, lambda y: y[0] == 'field' and y[1] == 'last_generation_accessed'))
+    rep.check(okf, 'R08.5', 'mark_instances_viewed/only-forward', 'last_generation_accessed is overwritten only by a greater generation',
+              'mark_instances_viewed overwrites last_generation_accessed with whatever the current access touched: a read or take of only older samples of the instance moves it back '
+              'and the most recent sample is reported with ViewState::New again', mv.where())
     for fn in ('read_by_keys', 'take_by_keys', 'read_bare_by_keys', 'take_bare_by_keys'):
         b = fx.find(DSC + fn)
         P = Pos(b)
